@@ -87,6 +87,11 @@ def gen_cases(tier, seed):
         out.append({"seed": s, "mode": "thread_start_fault", "n": 4, "W": r.choice([3, 4, 6, 8]), "sched": r.choice(["default", "default", "random"]),
                     "k": r.choice([2, 3, 4, 5]), "kind": r.choice(["refused", "kbi_after_start", "kbi_before_start"]), "queued": r.choice([1, 2, 2, 3, 4]),
                     "cfg": {"out": "all"}})
+    for i in range(max(30, n // 60)):
+        s = env.seed_for(seed, ID, tier, "interrupt_wait", i)
+        r = random.Random(env.seed_for(s, "descriptor"))
+        out.append({"seed": s, "mode": "interrupt_wait", "n": r.randint(3, 14), "W": r.choice([1, 2, 4, 8]), "sched": r.choice(["default", "random"]), "k": r.choice([1, 1, 2, 3, 5]),
+                    "perturb": "none", "delays": "none", "cfg": {"out": r.choice(["all", "sinks"])}})
     for i in range(max(6, n // 150)):
         # hundreds of failing calls in one run that is allowed to go on, with a bundled display attached (which remembers only so many
         # exceptions): it ends like any other run
@@ -121,6 +126,69 @@ class Watch:
     def __exit__(self, *a):
         self.drv.run_done = True
         self.drv.stop()
+
+
+def run_interrupt_wait(desc):
+    """A real SIGINT reaches the caller while it waits for its workers (a call is executing). Whatever run then raises, it must END: a hang is
+    a violation here as everywhere - except the one open known finding (D6), which is recognised by the site at which the KeyboardInterrupt
+    was first raised (C17's RaiseSite) and left to C17."""
+    import signal
+
+    from vmon.checks import c17
+
+    if threading.current_thread() is not threading.main_thread():
+        return {"status": "ok", "counters": {"interrupt_cases_skipped_not_main_thread": 1}, "nontrivial": False}
+    if signal.getsignal(signal.SIGINT) is not signal.default_int_handler:
+        signal.signal(signal.SIGINT, signal.default_int_handler)
+    RS = c17.RaiseSite()
+    W = Watch(desc)
+
+    def on_deadlock(stacks):
+        s_ = RS.site
+        if s_ and s_[0] == "__enter__" and s_[1] == "threading.py" and s_[2] and s_[2][1] == "queue.py":
+            abort.abort_with({"status": "ok", "nontrivial": False, "counters": {"cases_dropped_interrupt_raised_at_the_known_finding_site_D6": 1}})
+        abort.abort_with({"status": "violation", "mechanism": "hang",
+                          "detail": f"[SIGINT to the caller while it waits for its workers, call #{desc['k']}, W={desc['W']}, {desc['sched']}] logical deadlock: every "
+                                    f"engine thread (incl. the caller) is parked in an untimed wait, run has not returned (KeyboardInterrupt first raised in {s_})",
+                          "witness": {"stacks": stacks, "desc": desc}, "counters": {"deadlocks": 1}})
+
+    W.drv.on_deadlock = on_deadlock
+    st = {"n": 0, "fired": False}
+    lock = threading.Lock()
+    main_ident = threading.main_thread().ident
+
+    def pre(nid, att):
+        with lock:
+            st["n"] += 1
+            hit = st["n"] == desc["k"] and not st["fired"]
+            if hit:
+                st["fired"] = True
+        if hit:
+            time.sleep(0.006)  # the caller has started its workers and waits for them
+            signal.pthread_kill(main_ident, signal.SIGINT)
+            time.sleep(0.03)
+
+    R = None
+    with W, RS:
+        try:
+            R = plainrun.execute(desc, record_args=False, hang_watch=False, pre=pre)
+            for _ in range(20):
+                time.sleep(0.0005)
+        except KeyboardInterrupt:
+            pass
+    bad = None
+    if R is not None:
+        if R.in_flight_at_return:
+            bad = f"{R.in_flight_at_return} of the plan's functions still executing when run returned/raised"
+        else:
+            leaked = [t for t in R.leaked if t.is_alive()]
+            if leaked:
+                bad = f"thread(s) created by run still alive after it returned/raised ({R.exc!r}): {[t.name for t in leaked]}"
+    res = {"status": "ok", "counters": {"interrupt_wait_runs": 1, "thread_census_checks": 1}, "nontrivial": st["fired"],
+           "sig": hashlib.sha1(f"intwait|{desc['seed']}".encode()).hexdigest()[:16]}
+    if bad:
+        res.update(status="violation", mechanism="leftover-activity", detail=f"[SIGINT to the caller while it waits, call #{desc['k']}, W={desc['W']}] {bad}")
+    return res
 
 
 def run_observer_fault(desc):
@@ -438,6 +506,8 @@ def run_registry_fault(desc):
 def run_case(desc):
     if desc["mode"] == "cyclic":
         return run_cyclic(desc)
+    if desc["mode"] == "interrupt_wait":
+        return run_interrupt_wait(desc)
     if desc["mode"] == "observer_fault":
         return run_observer_fault(desc)
     if desc["mode"] == "registry_fault":
